@@ -412,7 +412,7 @@ fn check_clear_new(t: &mut Tape, ctx: &Ctx) -> Outcome {
 pub fn property() -> Property {
     Property {
         id: "C12",
-        rule: "Cases: a proptest-generated listing P and a session prefix of 1-6 steps: earlier runs of P with other replies that end normally, in an error, at STOP, or are interrupted after k calls; direct statements assigning P's variables, loop and fuel counters, DIM of P's arrays, DEFINT/STR/DBL/SNG, partial READs, FOR without NEXT (nested), direct GOSUB into P's subroutines, RND(-k), ERASE; \
+        rule: "Cases: (the final run may also be RUN \"file\" after a prefix that typed TRON; NEW may be a statement of the stored program with statements behind it; the host may hold a get_listing() result while CLEAR / NEW run) a proptest-generated listing P and a session prefix of 1-6 steps: earlier runs of P with other replies that end normally, in an error, at STOP, or are interrupted after k calls; direct statements assigning P's variables, loop and fuel counters, DIM of P's arrays, DEFINT/STR/DBL/SNG, partial READs, FOR without NEXT (nested), direct GOSUB into P's subroutines, RND(-k), ERASE; \
 in a third of the cases the interpreter first held a different program that was run and then replaced (NEW + retype, or line-by-line deletion). (run) then RUN or RUN n: transcript and final variables must equal those in a fresh interpreter holding P. \
 (clear_new) then CLEAR (also with ignored options) or NEW, followed by a probe battery (print every name, DIM every array again, store 1.5 into A / S / X / Z to expose DEFtype leftovers, READ, RETURN, NEXT, NEXT I, CONT, FNx calls): identical to a fresh interpreter holding P (resp. an empty one); after NEW, LIST and RUN print nothing and a small program with DATA typed afterwards is read from its first constant without an intervening RUN. \
 Non-trivial: the prefix left at least one of: non-default variables, a DEFtype, a DIM, pending frames, an advanced DATA pointer, an interrupted/failed run. Distinct by listing + prefix.",
